@@ -52,7 +52,9 @@ def main():
         if a.replay:
             return fn_replay(a.pid, a.replay)
         rc = fn_run(a.pid, a.tier)
-        if a.tier == "thorough" and rc == 0 and not os.environ.get("VERIF_SKIP_SEEDS") and not os.environ.get("DESERR_REPO"):
+        # opt-in (VERIF_WITH_SEEDS=1): the kill table of this property's seeded changes; the full table of the last sweep is
+        # committed as seeded/RESULTS.json and in DESIGN.md 11.5
+        if a.tier == "thorough" and rc == 0 and os.environ.get("VERIF_WITH_SEEDS") and not os.environ.get("DESERR_REPO"):
             try:
                 seeded_selftest(a.pid)
             except Exception as e:      # the kill table is an extra; it never changes the verdict of the check
